@@ -33,7 +33,7 @@ def cases(tier, seed, shard, nshards):
     for n in range(0, 7):
         for outer_aw in (False, True):
             for cont in ("list", "iterator", "aiter"):
-                for item_aw in (False, True):
+                for item_aw in (False, True, "awaitobj", "mixed"):
                     for steps in range(0, n + 2):
                         for susp in (0, 1):
                             idx += 1
@@ -83,8 +83,22 @@ def run_any_iter(case, stats):
             await Suspend(("item", i), 1)
         return item
 
+    class AwaitObj:
+        """An awaitable that is not a coroutine."""
+
+        def __init__(self, i, item):
+            self.i, self.item = i, item
+
+        def __await__(self):
+            return aw(self.i, self.item).__await__()
+
     def cell(i, item):
-        return aw(i, item) if case["item_aw"] else item
+        kind = case["item_aw"]
+        if kind == "mixed":
+            kind = [False, True, "awaitobj"][i % 3]
+        if kind == "awaitobj":
+            return AwaitObj(i, item)
+        return aw(i, item) if kind else item
 
     if case["cont"] == "list":
         cont = [cell(i, it) for i, it in enumerate(items)]
@@ -128,14 +142,15 @@ def run_any_iter(case, stats):
     if case["item_aw"]:
         # each item awaitable awaited during the step that requests it, in order
         exp_aw = list(range(min(case["steps"], n)))
-        if case["cont"] == "list":
-            pass
+        if case["item_aw"] == "mixed":
+            exp_aw = [i for i in exp_aw if i % 3]
         if awaited != exp_aw:
             viols.append({"key": "any_iter/await-order", "msg": f"any_iter {case}: item awaitables awaited {awaited}, expected {exp_aw}"})
     # un-awaited coroutines of the list shape are ours to dispose of
     if case["item_aw"] and case["cont"] == "list":
-        for c in cont[len(awaited):]:
-            c.close()
+        for c in cont:
+            if hasattr(c, "close") and hasattr(c, "cr_frame"):
+                c.close()
     if case["outer_aw"] and case["steps"] == 0:
         arg.close()
     if CTX.foreign:
